@@ -7,6 +7,24 @@ import gen as G
 THIS = REPO + "/snaps/zz_verif_c11_test.go"
 
 
+def sprintf_d(fmt, k):
+    """fmt.Sprintf(fmt, k) for formats holding only `%%` and one `%d`; anything else is returned marked (it cannot be a path
+    the property describes)"""
+    out, i, used = [], 0, False
+    while i < len(fmt):
+        c = fmt[i]
+        if c != "%":
+            out.append(c); i += 1; continue
+        nxt = fmt[i + 1] if i + 1 < len(fmt) else ""
+        if nxt == "%":
+            out.append("%"); i += 2
+        elif nxt == "d" and not used:
+            out.append(str(k)); used = True; i += 2
+        else:
+            out.append("%!" + nxt + "(BAD VERB)"); i += 2
+    return "".join(out)
+
+
 class C11(Prop):
     pid = "C11"
     fields = {"snappath": "*"}
@@ -24,12 +42,13 @@ class C11(Prop):
     def gen(self, rng, tier):
         n = 300 if tier == "quick" else 4000
         cases = []
-        dirs = [None, b"__snapshots__", b"snaps", b"a/b/c", b"../shared", b"./x/../y", b"/abs/dir", b"/abs//dir/", b"", b"d/"]
+        dirs = [None, b"__snapshots__", b"snaps", b"a/b/c", b"../shared", b"./x/../y", b"/abs/dir", b"/abs//dir/", b"", b"d/",
+                b"out%put", b"/abs/100%/d"]
         for i in range(n):
             r = rng.fork()
             ops = []
             for _ in range(r.range(1, 4)):
-                o = {"op": "snappath", "api": r.choice(["snap", "snap", "stand", "standjson"]), "test": hx(r.choice(G.TEST_NAMES)),
+                o = {"op": "snappath", "api": r.choice(["snap", "snap", "stand", "standjson"]), "test": hx(r.choice(G.TEST_NAMES + G.PCT_NAMES + G.PCT_STANDALONE if r.chance(1, 3) else G.TEST_NAMES)),
                      "form": r.choice(["test", "test", "nontest", "nontest", "utiltest", "nontestdeep", "nontest_via_util"]),
                      "count": r.choice([1, 5, 23, 24, 25, 40, 120]),      # recursion depth of the non-test helper (form nontestdeep)
                      "values": r.choice([[], ["nontest"], ["nontest2"], ["closure"], ["othertest"], ["othertest", "nontest"],
@@ -38,10 +57,10 @@ class C11(Prop):
                 d = r.choice(dirs)
                 if d is not None:
                     o["dir"] = hx(d)
-                f = r.choice([None, None, b"named", b"with.dot", b"sub/named"])
+                f = r.choice([None, None, b"named", b"with.dot", b"sub/named", b"rate%", b"a%db"])
                 if f is not None:
                     o["fn"] = hx(f)
-                e = r.choice([None, None, b".txt", b".json", b"ext"])
+                e = r.choice([None, None, b".txt", b".json", b"ext", b".%d"])
                 if e is not None:
                     o["ext"] = hx(e)
                 ops.append(o)
@@ -88,6 +107,13 @@ class C11(Prop):
             if exp.startswith("//"):
                 exp = exp[1:]
             got = unhx(o["path"]).decode("latin-1")
+            if api in ("stand", "standjson"):
+                # the standalone location is a FORMAT for the ordinal: what counts is the path it gives for an ordinal (here 7) -
+                # `%%` prints a '%', the one `%d` prints the ordinal, nothing else may be in it
+                got = sprintf_d(got, 7)
+                exp = posixpath.normpath(posixpath.join(full, (name if name else test.replace("/", "_")) + "_7.snap" + ext))
+                if exp.startswith("//"):
+                    exp = exp[1:]
             if got != exp:
                 fails.append({"msg": "snappath %d (%s via %s): %s, the property text says %s" % (idx, api, shape, got, exp)})
         return fails
